@@ -20,6 +20,13 @@ PROPS = {
         "assumptions": ["type invariant of authorities taken as precondition: auth_shape ('[' only opens the host, only ':port' follows ']', one '@' at most)"],
         "not_covered": ["validity of each part as a value of its own type (grammar lemma G3)"],
     },
+    "C05": {
+        "level": "proof",
+        "units": [{"kind": "verus", "name": "the five setters of RiRefBufImpl vs recomposition of the five components (one replaced, documented disambiguations spelled out)"}],
+        "assumptions": ["type invariant of references as precondition: ref_shape; arguments satisfy the structural consequences of their grammars (scheme_shape, authority_shape, path_shape, query_shape)"],
+        "not_covered": ["RiBufImpl::set_scheme (URI/IRI with mandatory scheme) and from_scheme: not under contract",
+                        "uri/ iri/ one-line wrappers", "validity of the result as a member of the RFC language (needs grammar lemma G1; only the structural decomposition is proved)"],
+    },
     "C11": {
         "level": "proof",
         "units": [{"kind": "verus", "name": "AuthorityMutImpl: window invariant + splice postconditions of set_userinfo/set_host/set_port", "specs": ["00_base", "01_chars", "02_authority", "03_types", "05_compose"]}],
@@ -49,6 +56,11 @@ PROPS = {
 }
 
 MANIFEST_TEXT = {
+    "C05": {
+        "technique": "Verus functional + frame postconditions on the real setters over the abstract 5-component view (recomposition lemma proved in Verus)",
+        "level_text": "Deductive proof for all buffers and all argument values: after set_scheme / set_authority / set_path / set_query / set_fragment the text is exactly the RFC 3986 5.3 recomposition of the five components with the targeted one replaced or removed and the other four byte-identical; the path differs only by the three documented disambiguations, which the postcondition spells out as the only alternatives; reading the five components back (App. B decomposition of the new text) yields exactly those values (lemma_ref_compose, proved).",
+        "level_note": "Assumed: ref_shape and argument shapes as preconditions; splice primitives proved in the same run. Not covered: RiBufImpl::set_scheme/from_scheme, wrappers, membership of the result in the RFC language.",
+    },
     "C11": {
         "technique": "Verus data-structure invariant on the real AuthorityMutImpl + functional postconditions over the (prefix, authority, suffix) view",
         "level_text": "Deductive proof for all buffers, all arguments and (by composition of the per-call contracts) all call sequences: each of set_userinfo/set_host/set_port requires the handle invariant (window inside the buffer, window text is a well-shaped authority) and ensures it again, leaves the text before and after the window unchanged, and makes the window text equal to [userinfo '@'] host [':' port] with exactly the targeted part replaced or removed - which is precisely 'the handle views the new authority'.",
@@ -89,7 +101,6 @@ MANIFEST_TEXT = {
 
 NOT_APPLICABLE = {
     "C04": "check not built yet",
-    "C05": "check not built yet",
     "C06": "check not built yet",
     "C07": "check not built yet",
     "C08": "check not built yet",
